@@ -64,11 +64,33 @@ type StructVal struct {
 
 type TupleVal []Value
 
+// MapVal is a Go map: a reference to an insertion-ordered association list
+// (nil reference = nil map). Keys are compared with the solver, one entry at a
+// time, like the linear search the code would otherwise do; iteration visits
+// the entries in insertion order (Go leaves the order unspecified: one of the
+// permitted orders is explored).
+type MapVal struct {
+	M *MapObj
+}
+
+type MapObj struct {
+	Keys []Value
+	Vals []Value
+}
+
+// mapIter is the state of a range-over-map loop.
+type mapIter struct {
+	m    *MapObj
+	keys []Value // snapshot at loop entry
+	pos  int
+}
+
 // OpaqueVal stands for values the engine does not model (formatted strings,
 // foreign objects); any use beyond passing it around is unsupported.
 type OpaqueVal struct {
 	What string
 	Wrap Value // for errors: the %w operand (an *IfaceVal) if any
+	Data interface{}
 }
 
 func under(t types.Type) types.Type {
@@ -199,7 +221,9 @@ func (ex *Exec) zeroLeaves(t types.Type, out []Value) []Value {
 		return append(out, &IfaceVal{})
 	case *types.Signature:
 		return append(out, &FuncVal{})
-	case *types.Map, *types.Chan:
+	case *types.Map:
+		return append(out, &MapVal{})
+	case *types.Chan:
 		return append(out, &OpaqueVal{What: "nil " + u.String()})
 	}
 	return append(out, &OpaqueVal{What: "zero ?" + t.String()})
@@ -276,6 +300,11 @@ func describe(v Value) string {
 		return "struct " + x.Typ.String()
 	case TupleVal:
 		return fmt.Sprintf("tuple/%d", len(x))
+	case *MapVal:
+		if x.M == nil {
+			return "nil-map"
+		}
+		return fmt.Sprintf("map/%d", len(x.M.Keys))
 	case *OpaqueVal:
 		return "opaque(" + x.What + ")"
 	case nil:
